@@ -1,6 +1,6 @@
 """C10 — The regex engine is total."""
 
-from ..rules import frontprogress, implicit, limits, regexrules, textparse
+from ..rules import frontprogress, implicit, limits, pairing, regexrules, textparse
 
 
 def run(ctx, rep):
@@ -14,4 +14,5 @@ def run(ctx, rep):
     regexrules.rule_positions_nonnegative(ctx, rep, "C10-R8")
     textparse.rule_host_parser_text_admitted(ctx, rep, "C10-R9", modules=("regex.parser",), floor=2)
     regexrules.rule_start_position_inside_subject(ctx, rep, "C10-R10")
+    pairing.rule_saved_state_restored(ctx, rep, "C10-R11", modules=("regex.vm", "regex.regex"))
     rep.undecided += ["wall-clock time per match"]
